@@ -84,6 +84,7 @@ class Parser(object):
         self.parser = yacc.yacc(module=self, debug=False)
         self.lexer = Lexer().lexer
         self.eems_v2 = False
+        self.syntax_error = None
 
     def p_program(self, p):
         """
@@ -226,6 +227,14 @@ class Parser(object):
         elements : element COMMA elements
         """
 
+        if isinstance(p[3], dict):
+            # PLY swallows a SyntaxError raised inside a grammar action, so remember it for `parse` to raise
+            if self.syntax_error is None:
+                self.syntax_error = SyntaxError(
+                    "Syntax error at line {0}: a list cannot mix values and key:value pairs".format(p.lineno(1))
+                )
+            p[3] = []
+
         p[0] = [p[1]] + p[3]
 
     def p_elements_element(self, p):
@@ -303,5 +312,11 @@ class Parser(object):
         # The lexer and the version flag are reused between calls: start every parse from a clean state
         self.lexer.lineno = 1
         self.eems_v2 = False
+        self.syntax_error = None
 
-        return self.parser.parse(source, lexer=self.lexer, tracking=True)
+        result = self.parser.parse(source, lexer=self.lexer, tracking=True)
+
+        if self.syntax_error is not None:
+            raise self.syntax_error
+
+        return result
